@@ -19,7 +19,7 @@ one abstract run per external signing entry point (pure; HashML-DSA x 3 pre-hash
       ||ct0|| <= gamma2-1, number of hint ones <= omega  (upper bounds equal, not merely below).
   S7  A-hat = ExpandA(rho of the private key) with the FIPS index bytes and order.
   S8  the scalar kernels on the signing path equal their FIPS definitions on their whole domain:
-      Decompose / HighBits / LowBits, MakeHint, mod+- (engine of C15).
+      Decompose / HighBits / LowBits, MakeHint, mod+-, CoeffFromThreeBytes (engine of C15).
   S9  the ring arithmetic of the loop body (Alg. 7 lines 12-26), symbolically: w = NTT^-1(A-hat o
       NTT(y)); c-hat = NTT(c); c*s1, c*s2, c*t0 from the key precomputes (Montgomery factor
       cancels); z = y + c*s1; w1 = HighBits(w); LowBits(w - c*s2); MakeHint(-c*t0, w - c*s2 + c*t0).
@@ -42,7 +42,7 @@ import vlib
 import c06
 import c15
 
-EXTRA = {"peel": "ml_dsa::sign_internal:2", "probe": "hashing::expand_mask|encodings::sig_encode", "track_ret": "helpers::infinity_norm|Iterator::sum"}
+EXTRA = {"peel": "ml_dsa::sign_internal:2", "probe": "hashing::expand_mask|encodings::sig_encode|hashing::rej_ntt_poly", "track_ret": "helpers::infinity_norm|Iterator::sum"}
 
 
 def sign_rules(j, P, s, mode, ob):
@@ -57,6 +57,7 @@ def sign_rules(j, P, s, mode, ob):
     # S7
     roles = st.hash_roles(j, "sk.tr")
     rho_src = st.expand_a(j, P, ob, None, "sign:%s" % ent, lambda src: src.startswith("in.self."))
+    st.sampler_fill(j, ob, "sign:%s" % ent, {"rej_ntt_poly": k * l})
     # S3 (roles are bound by dataflow: mu = the SHAKE256 instance that absorbs the key's tr first; rho'' = the one
     # that absorbs 32 | 32 | the 64 bytes read from the mu instance)
     mus = roles["mu"]
@@ -263,7 +264,7 @@ def main(tier):
             ok_res = isinstance(j["result"], dict) and list(j["result"].get("enum", {}).keys()) == ["v0"]
             ob(ok_res, "S1:always-ok:%s" % mode, {"rule": "with a working generator and ctx <= 255 signing returns Ok for every key, message, rnd", "entry": j["root"], "set": s, "result": j["partitions"]})
     ring_arithmetic(rep, ob, sets, samples)
-    ksamples, kstats = c15.analyse(rep, ob, tier, {"decompose", "make_hint", "center_mod"}, prefix="S8:")
+    ksamples, kstats = c15.analyse(rep, ob, tier, {"decompose", "make_hint", "center_mod", "three_bytes"}, prefix="S8:")
     cov = {
         "obligations": cnt[0], "discharged": cnt[1],
         "checker_cmd": "python3 bin/check C03 (driver ai mode: hash / rng probes, peeled signing loop, path facts at sigEncode; kernel exactness by piecewise-affine analysis)",
